@@ -18,7 +18,9 @@ import (
 func init() {
 	// kraken logs through a global zap logger; silence it (and never let it
 	// touch a real clock-dependent sink inside a bubble).
-	log.SetGlobalLogger(zap.NewNop().Sugar())
+	if os.Getenv("KSIM_KRAKENLOG") == "" {
+		log.SetGlobalLogger(zap.NewNop().Sugar())
+	}
 }
 
 var dirSeq atomic.Int64
